@@ -285,7 +285,7 @@ wire::Msg World::hello_msg(int ci) {
   return m;
 }
 
-size_t World::queue_msg(int ci, const wire::Msg &m, std::vector<int> fds) {
+size_t World::queue_msg(int ci, const wire::Msg &m, std::vector<int> fds, size_t fd_at) {
   Client &c = C(ci);
   Sent s;
   s.seq = ++seq;
@@ -298,7 +298,7 @@ size_t World::queue_msg(int ci, const wire::Msg &m, std::vector<int> fds) {
     c.sent.push_back(s);
     return c.sent.size() - 1;
   }
-  if (!fds.empty()) c.out_fds[c.out_base + c.out.size()] = std::move(fds);
+  if (!fds.empty()) c.out_fds[c.out_base + c.out.size() + (fd_at < bytes.size() ? fd_at : 0)] = std::move(fds);
   c.wire_stream += bytes;
   c.out += bytes;
   s.end_off = c.out_base + c.out.size();
@@ -487,6 +487,7 @@ void World::stop_bus(bool check_leaks) {
   int blocks = _dbus_get_malloc_blocks_outstanding();
   if (blocks != base_blocks) fail("leak:blocks", "%d dbus_malloc blocks outstanding after shutdown (baseline %d)", blocks, base_blocks);
   if (K->sut_open_sim_fds() != 0) fail("leak:fd", "%d simulated descriptors still open after bus shutdown", K->sut_open_sim_fds());
+  if (K->passed_fd_double_closes) fail("oracle:C15:double-close", "a descriptor received over SCM_RIGHTS was closed %llu times more than once", (unsigned long long)K->passed_fd_double_closes);
   for (auto &in : K->installed)
     if (in.open) fail("leak:passed-fd", "a descriptor received over SCM_RIGHTS (tag %llu) was never closed", (unsigned long long)in.tag);
 }
